@@ -621,6 +621,36 @@ def run_weak_pairs(chk, spec):
 RUNNERS["weak_pairs"] = run_weak_pairs
 
 
+def run_linear_members(chk, spec):
+	"""the cancelling change INSIDE one cell: a tuple / list / set / dict cell (c, d) replaced by (c', d') whose member hashes moved by +e and -e*K. The two cells
+	are unequal and Python's hash() tells them apart, so the fingerprint of the vector - and of a table holding it - changes"""
+	K, e, form = spec["K"], spec["e"], spec["form"]
+	a, b = 5, 2000000000 + 7 * K
+	mk = {"tuple": lambda x, y: (x, y), "list": lambda x, y: [x, y], "set": lambda x, y: {x, y}, "frozenset": lambda x, y: frozenset({x, y}), "dict": lambda x, y: {x: y}, "dict-values": lambda x, y: {"p": x, "q": y},
+		"nested-tuple": lambda x, y: ("t", (x, y)), "tuple-in-list": lambda x, y: [(x, y), 1], "triple": lambda x, y: (0, x, y)}[form]
+	old, new = mk(a, b), mk(a + e, b - e * K)
+	if form in ("tuple", "frozenset", "nested-tuple", "triple") and hash(old) == hash(new):
+		chk.skip("members-collide-under-hash")
+		return
+	chk.judged("sensitivity", ("linear-members", form, K, e, spec["where"]))
+	if spec["where"] == "vector":
+		x = Vector([old, mk(1, 2)], dtype=object)
+		f0 = fp(x); w = call(x.__setitem__, 0, new); f1 = fp(x)
+	elif spec["where"] == "table":
+		x = Table([Vector([old, mk(1, 2)], dtype=object, name="c"), Vector([1, 2], name="n")])
+		f0 = fp(x); w = call(lambda: x["c"].__setitem__(0, new)); f1 = fp(x)
+	else:
+		f0, f1, w = fp(Vector([old, mk(1, 2)], dtype=object)), fp(Vector([new, mk(1, 2)], dtype=object)), call(lambda: None)
+	if not (w.ok and f0.ok and f1.ok):
+		chk.skip("linear-members-write-refused")
+		return
+	if f0.value == f1.value:
+		chk.fail("a write that changes an element to an unequal value changes the fingerprint", f"fingerprint/insensitive/cancelling-change-inside-a-cell/{form}", f"{spec!r}: cell {old!r} -> {new!r}: fingerprint {f0.value} both times")
+
+
+RUNNERS["linear_members"] = run_linear_members
+
+
 def run_date_midnight(chk, spec):
 	"""a date and the datetime of its midnight are unequal values with different hash(): replacing one by the other - in an object column, inside a tuple cell, or
 	for the whole column when a <date> column is promoted in place by writing exactly midnight of the day a cell already holds - changes the fingerprint"""
@@ -924,6 +954,11 @@ def run(chk):
 				for pos in ("first", "last"):
 					for e in (1, -1):
 						chk.case("linear_cells", {"kind": kind, "K": K, "e": e, "pos": pos, "via": via, "pad": rng.choice([0, 1, 3])}, "linear-cells")
+	for K in _multipliers():
+		for form in ("tuple", "list", "set", "frozenset", "dict", "dict-values", "nested-tuple", "tuple-in-list", "triple"):
+			for e in (1, -1, 3):
+				for where in ("vector", "table", "rebuilt"):
+					chk.case("linear_members", {"K": K, "e": e, "form": form, "where": where}, "linear-members")
 	for how in ("object-cell", "tuple-cell", "promote-column", "promote-table-column", "promote-through-handle"):
 		for direction in ("date->datetime", "datetime->date"):
 			chk.case("date_midnight", {"how": how, "direction": direction}, "date-midnight")
